@@ -61,6 +61,24 @@ fn scenario(name: &str) -> Option<String> {
                 if get(&evs[0], "level") != Some("\"info\"") || get(&evs[0], "msg") != Some("\"m\"") || get(&evs[0], "z") != Some("1") { return fail(format!("expected=values kept actual={:?}", evs[0])); }
                 None
             }
+            "many" => {
+                // many tags: those without a fixed place keep the order given (the error's own tags, then the rest), whatever their number
+                for k in 0..5u8 { add_thread_local_log_tag(["t0", "t1", "t2", "t3", "t4"][k as usize], k); }
+                add_thread_local_log_tag("http_method", "GET");
+                let names: [&'static str; 40] = ["a00","a01","a02","a03","a04","a05","a06","a07","a08","a09","a10","a11","a12","a13","a14","a15","a16","a17","a18","a19",
+                    "a20","a21","a22","a23","a24","a25","a26","a27","a28","a29","a30","a31","a32","a33","a34","a35","a36","a37","a38","a39"];
+                let mut e = Error::client_error(Response::text(404, "nope")).with_msg("why");
+                for nm in names { e = e.with_tag(nm, 1u8); }
+                let _ = log_response(Err(e));
+                let evs = drain(&rx);
+                if evs.len() != 1 { return fail(format!("expected=1 event actual={}", evs.len())); }
+                let mut want: Vec<String> = vec!["level".into(), "msg".into(), "http_method".into(), "response_body_len".into()];
+                want.extend(names.iter().map(|s| s.to_string()));
+                want.push("code".into());
+                want.extend(["t0", "t1", "t2", "t3", "t4"].iter().map(|s| s.to_string()));
+                if keys(&evs[0]) != want { return fail(format!("expected=48 tags in the order given actual={:?}", keys(&evs[0]))); }
+                None
+            }
             "levels" => {
                 let _ = servlin::log::error("e", ()); let _ = servlin::log::info("i", ()); let _ = servlin::log::debug("d", tag("k", true));
                 let evs = drain(&rx);
@@ -152,7 +170,7 @@ fn stopped() -> Option<String> {
 fn main() {
     std::panic::set_hook(Box::new(|_| {}));
     let args: Vec<String> = std::env::args().collect();
-    let all = ["order", "levels", "isolation", "response-ok", "response-err", "wrapper"];
+    let all = ["order", "many", "levels", "isolation", "response-ok", "response-err", "wrapper"];
     let run = |n: &str| -> Option<String> { if n == "stopped" { stopped() } else { match std::panic::catch_unwind(|| scenario(n)) { Ok(v) => v, Err(_) => Some(format!("log scenario={n} expected=no-panic actual=panic")) } } };
     if args.len() >= 3 && args[1] == "replay" {
         let w = args[2..].join(" ");
